@@ -142,9 +142,9 @@ Fixpoint keypath_loop (bs : list N) (ks : list keypath) (off : N) (cur : option 
           | KIndex i =>
               if hdr_type hdr =? ARRAY_CONTAINER_TAG then
                 (* length + idx stays inside i32: length < 2^29 *)
-                if ((len <? i) || (len + i <? 0))%Z then Ok None
+                if GBK_B_REJECT i len then Ok None           (* generated from the byte branch of get_by_keypath *)
                 else
-                  let idx := Z.to_N (if (0 <=? i)%Z then i else len + i)%Z in
+                  let idx := Z.to_N (GBK_B_INDEX i len) in
                   match get_jentry_by_index_w bs off hdr idx with
                   | Some (e, voff) => keypath_loop bs r voff (Some e)
                   | None => Ok None
